@@ -37,6 +37,35 @@ fn exit_(obj: usize, op: usize) { OCC[obj].fetch_sub(1, SeqCst); END[op].store(n
 fn yield_() { vsched::harness_event("__yield", |_| true); }
 fn gate_wait(k: usize) { vsched::harness_event("__gate_wait", |_| GATE[k].load(SeqCst)); }
 fn gate_open(k: usize) { vsched::harness_event("__gate_open", |_| true); GATE[k].store(true, SeqCst); }
+static GATE_WAKER: [std::sync::Mutex<Option<std::task::Waker>>; N] = [const { std::sync::Mutex::new(None) }; N];
+static WOKEN: [AtomicBool; N] = [const { AtomicBool::new(false) }; N];
+static FRET: [AtomicUsize; N] = [const { AtomicUsize::new(usize::MAX) }; N];
+static FRES: [AtomicUsize; N] = [const { AtomicUsize::new(usize::MAX) }; N];
+static NREADY: [AtomicUsize; N] = [const { AtomicUsize::new(0) }; N];
+static FDROPPED: [AtomicUsize; N] = [const { AtomicUsize::new(usize::MAX) }; N];
+static RESUMED: [AtomicUsize; N] = [const { AtomicUsize::new(usize::MAX) }; N];
+static CANCELLED: [AtomicBool; N] = [const { AtomicBool::new(false) }; N];
+struct GateFut { gate: usize, op: usize, obj: usize, tok: usize, done: bool }
+impl std::future::Future for GateFut {
+    type Output = usize;
+    fn poll(mut self: std::pin::Pin<&mut Self>, cx: &mut std::task::Context<'_>) -> std::task::Poll<usize> {
+        vsched::harness_event("__gate_poll", |_| true);
+        if self.gate == 9999 || GATE[self.gate].load(SeqCst) {
+            if OCC[self.obj].load(SeqCst) > 0 { OCC[self.obj].fetch_sub(1, SeqCst); }
+            END[self.op].store(now(), SeqCst); self.done = true;
+            std::task::Poll::Ready(self.tok)
+        } else {
+            *GATE_WAKER[self.gate].lock().unwrap() = Some(cx.waker().clone());
+            std::task::Poll::Pending
+        }
+    }
+}
+impl Drop for GateFut { fn drop(&mut self) { if !self.done { if OCC[self.obj].load(SeqCst) > 0 { OCC[self.obj].fetch_sub(1, SeqCst); } CANCELLED[self.op].store(true, SeqCst); END[self.op].store(now(), SeqCst); } } }
+struct TaskWake(usize);
+impl futures::task::ArcWake for TaskWake { fn wake_by_ref(a: &Arc<Self>) { vsched::harness_event("__task_wake", |_| true); WOKEN[a.0].store(true, SeqCst); } }
+fn task_wait(k: usize) { vsched::harness_event("__task_wait", |_| WOKEN[k].load(SeqCst)); WOKEN[k].store(false, SeqCst); }
+fn open_gate_wake(k: usize) { vsched::harness_event("__gate_open", |_| true); GATE[k].store(true, SeqCst); let w = GATE_WAKER[k].lock().unwrap().take(); if let Some(w) = w { w.wake(); } }
+fn fut_done(op: usize, v: usize) { FRES[op].store(v, SeqCst); FRET[op].store(now(), SeqCst); NREADY[op].fetch_add(1, SeqCst); }
 fn op_inv(op: usize) { INV[op].store(now(), SeqCst); }
 fn op_done(op: usize, v: usize) { RES[op].store(v, SeqCst); RET[op].store(now(), SeqCst); }
 ''')
@@ -47,11 +76,13 @@ fn op_done(op: usize, v: usize) { RES[op].store(v, SeqCst); RET[op].store(now(),
     callers = [t['name'] for t in sc['threads'] if not t.get('final')]
     opid = 0
     handles = []
+    tasks = {}
     for th in sc['threads']:
-        body = []
+        body = []; futvars = {}
         if th.get('final'):
             cond = ' && '.join('vsched::thread_finished(rt, "%s")' % c for c in callers) or 'true'
             body.append('vsched::harness_event("__await_callers", |rt| %s);' % cond)
+        ntask = [0]
         for op in th['ops']:
             kind = op[0]
             if kind in ('sync', 'desync', 'try_sync'):
@@ -69,7 +100,48 @@ fn op_done(op: usize, v: usize) { RES[op].store(v, SeqCst); RET[op].store(now(),
                 elif kind == 'desync': body.append('{ desync(&q%d, move || { %s }); op_done(%d, 0); }' % (q, ' '.join(code), opid))
                 else: body.append('{ let r = try_sync(&q%d, move || { %s %d_usize }); op_done(%d, match r { Ok(v) => v, Err(_) => 9999 }); }' % (q, ' '.join(code), tok, opid))
                 opid += 1
-            elif kind == 'open_gate': body.append('gate_open(%d);' % op[1])
+            elif kind == 'open_gate': body.append('open_gate_wake(%d);' % op[1])
+            elif kind in ('future_desync', 'future_sync'):
+                q = op[1]; b = op[2] if len(op) > 2 else {}
+                fk = b.get('fut', 'ready'); gate = fk[1] if isinstance(fk, (list, tuple)) else 9999
+                var = b.get('as', 'f%d' % opid); tok = 40 + opid
+                futvars[var] = (opid, kind)
+                body.append('op_inv(%d);' % opid)
+                mk = 'move || { enter(%d, %d); GateFut { gate: %d, op: %d, obj: %d, tok: %d, done: false } }' % (q, opid, gate, opid, q, tok)
+                if kind == 'future_desync': body.append('let mut %s = Some(future_desync(&q%d, %s));' % (var, q, mk))
+                else: body.append('let mut %s = Some(Box::pin(future_sync(&q%d, %s)));' % (var, q, mk))
+                body.append('RET[%d].store(now(), SeqCst);' % opid)
+                opid += 1
+            elif kind == 'suspend':
+                q = op[1]; b = op[2] if len(op) > 2 else {}
+                var = b.get('as', 'f%d' % opid)
+                futvars[var] = (opid, 'suspend')
+                body.append('op_inv(%d);' % opid)
+                body.append('let mut %s = Some(Box::pin(scheduler().suspend(&q%d)));' % (var, q))
+                body.append('RET[%d].store(now(), SeqCst);' % opid)
+                opid += 1
+            elif kind in ('block_on', 'poll'):
+                var = op[1]; fop, fkind = futvars[var]
+                k = ntask[0]; ntask[0] += 1
+                tk = '%s_%d' % (th['name'], k)
+                tid = tasks.setdefault(tk, len(tasks))
+                body.append('let waker_%d = futures::task::waker(Arc::new(TaskWake(%d))); let mut cx_%d = std::task::Context::from_waker(&waker_%d);' % (tid, tid, tid, tid))
+                conv = 'match v { Ok(v) => v, Err(_) => 7777 }' if fkind != 'suspend' else 'match v { Ok(r) => { resumers_%s = Some(r); 1 }, Err(_) => 7777 }' % var
+                if fkind == 'suspend': body.append('let mut resumers_%s = None;' % var)
+                if kind == 'block_on':
+                    body.append('loop { let r = std::future::Future::poll(std::pin::Pin::new(%s.as_mut().unwrap()), &mut cx_%d); match r { std::task::Poll::Ready(v) => { fut_done(%d, %s); break; } std::task::Poll::Pending => { task_wait(%d); } } }' % (var, tid, fop, conv, tid))
+                else:
+                    body.append('{ let r = std::future::Future::poll(std::pin::Pin::new(%s.as_mut().unwrap()), &mut cx_%d); if let std::task::Poll::Ready(v) = r { fut_done(%d, %s); } }' % (var, tid, fop, conv))
+            elif kind in ('drop_fut', 'detach'):
+                var = op[1]; fop, fkind = futvars[var]
+                body.append('drop(%s.take()); FDROPPED[%d].store(now(), SeqCst);' % (var, fop))
+            elif kind == 'sync_fut':
+                var = op[1]; fop, fkind = futvars[var]
+                body.append('{ let v = %s.take().unwrap().sync(); fut_done(%d, match v { Ok(v) => v, Err(_) => 7777 }); }' % (var, fop))
+            elif kind == 'resume':
+                var = op[1]; fop, fkind = futvars[var]
+                if op[2] == 'resume': body.append('resumers_%s.take().unwrap().resume(); RESUMED[%d].store(now(), SeqCst);' % (var, fop))
+                else: body.append('drop(resumers_%s.take()); RESUMED[%d].store(now(), SeqCst);' % (var, fop))
             else: raise ValueError('replay: op ' + kind)
         clones = ' '.join('let q%d = Arc::clone(&q%d);' % (q, q) for q in range(nq))
         A('    let h_%s = { %s vsched::spawn_controlled("%s", move || { %s }) };' % (th['name'], clones, th['name'], ' '.join(body)))
@@ -80,7 +152,7 @@ fn op_done(op: usize, v: usize) { RES[op].store(v, SeqCst); RET[op].store(now(),
     A('    println!("VERDICT {}", verdict.clone().unwrap_or("DONE".to_string()));')
     A('    for (n, fin, pan) in threads.iter() { println!("THREAD {} finished={} panicked={}", n, fin, pan); }')
     A('    println!("GHOST overlap={} twice={}", OVERLAP.load(SeqCst), TWICE.load(SeqCst));')
-    A('    for i in 0..%d { println!("OP {} nrun={} inv={} ret={} start={} end={} res={}", i, NRUN[i].load(SeqCst), INV[i].load(SeqCst) as isize, RET[i].load(SeqCst) as isize, START[i].load(SeqCst) as isize, END[i].load(SeqCst) as isize, RES[i].load(SeqCst) as isize); }' % opid)
+    A('    for i in 0..%d { println!("OP {} nrun={} inv={} ret={} start={} end={} res={} fret={} fres={} nready={} fdropped={} resumed={} cancelled={}", i, NRUN[i].load(SeqCst), INV[i].load(SeqCst) as isize, RET[i].load(SeqCst) as isize, START[i].load(SeqCst) as isize, END[i].load(SeqCst) as isize, RES[i].load(SeqCst) as isize, FRET[i].load(SeqCst) as isize, FRES[i].load(SeqCst) as isize, NREADY[i].load(SeqCst), FDROPPED[i].load(SeqCst) as isize, RESUMED[i].load(SeqCst) as isize, CANCELLED[i].load(SeqCst)); }' % opid)
     for q in range(nq): A('    println!("QUEUE %d {:?}", q%d);' % (q, q))
     A('    std::process::exit(0);')
     A('}')
@@ -118,8 +190,9 @@ def parse_output(out, wall):
         elif line.startswith('GHOST '):
             m = re.match(r'GHOST overlap=(\d+) twice=(\d+)', line); r['overlap'] = int(m.group(1)); r['twice'] = int(m.group(2))
         elif line.startswith('OP '):
-            m = re.match(r'OP (\d+) nrun=(\d+) inv=(-?\d+) ret=(-?\d+) start=(-?\d+) end=(-?\d+) res=(-?\d+)', line)
-            r['ops'][int(m.group(1))] = dict(nrun=int(m.group(2)), inv=int(m.group(3)), ret=int(m.group(4)), start=int(m.group(5)), end=int(m.group(6)), res=int(m.group(7)))
+            m = re.match(r'OP (\d+) nrun=(\d+) inv=(-?\d+) ret=(-?\d+) start=(-?\d+) end=(-?\d+) res=(-?\d+) fret=(-?\d+) fres=(-?\d+) nready=(\d+) fdropped=(-?\d+) resumed=(-?\d+) cancelled=(\w+)', line)
+            r['ops'][int(m.group(1))] = dict(nrun=int(m.group(2)), inv=int(m.group(3)), ret=int(m.group(4)), start=int(m.group(5)), end=int(m.group(6)), res=int(m.group(7)),
+                                             fret=int(m.group(8)), fres=int(m.group(9)), nready=int(m.group(10)), fdropped=int(m.group(11)), resumed=int(m.group(12)), cancelled=m.group(13) == 'true')
         elif line.startswith('QUEUE '):
             m = re.match(r'QUEUE (\d+) (.*)', line); r['queues'][int(m.group(1))] = m.group(2)
     return r
@@ -148,6 +221,7 @@ def judge(spec, viol, rr):
         for k, o in ops.items():
             n = rr['ops'][k]['nrun']
             if o['kind'] in ('desync', 'sync') and n != 1: bad.append('op%d nrun=%d' % (k, n))
+            if o['kind'] == 'future_desync' and (n != 1 or rr['ops'][k]['end'] < 0): bad.append('future op%d nrun=%d end=%d' % (k, n, rr['ops'][k]['end']))
         for q, s in rr['queues'].items():
             if 'State: Idle, Pending: 0' not in s: bad.append('queue%d %s' % (q, s))
         return ('reproduced', '; '.join(bad)) if bad else ('not_reproduced', '')
@@ -172,6 +246,36 @@ def judge(spec, viol, rr):
                 if ra['ret'] >= 0 and rb['inv'] >= 0 and ra['ret'] < rb['inv'] and rb['start'] >= 0 and (ra['end'] < 0 or rb['start'] < ra['end']):
                     bad.append('op%d returned before op%d was invoked but op%d started first' % (a, b, b))
         return ('reproduced', '; '.join(bad)) if bad else ('not_reproduced', '')
+    if oracle == 'fut_results':
+        bad = []
+        for k, o in ops.items():
+            if o['kind'] not in ('future_desync', 'future_sync'): continue
+            r = rr['ops'][k]
+            if r['nready'] > 1: bad.append('op%d resolved %d times' % (k, r['nready']))
+            if r['fret'] >= 0:
+                if r['end'] < 0 or r['fret'] < r['end'] or r['nrun'] != 1: bad.append('op%d resolved before its operation finished %r' % (k, r))
+                if r['fres'] != 40 + k: bad.append('op%d resolved to %d' % (k, r['fres']))
+        return ('reproduced', '; '.join(bad)) if bad else ('not_reproduced', '')
+    if oracle == 'cancelled_clean':
+        bad = []
+        for k, o in ops.items():
+            if o['kind'] != 'future_sync': continue
+            r = rr['ops'][k]
+            if r['fdropped'] >= 0 and r['nrun'] > 0 and r['end'] < 0: bad.append('op%d still open after its future was dropped' % k)
+            if r['fdropped'] >= 0 and r['start'] >= 0 and r['fdropped'] < r['start']: bad.append('op%d started after its future was dropped' % k)
+        return ('reproduced', '; '.join(bad)) if bad else ('not_reproduced', '')
+    if oracle == 'suspend':
+        bad = []
+        for ks, so in ops.items():
+            if so['kind'] != 'suspend': continue
+            rs = rr['ops'][ks]
+            for k, o in ops.items():
+                if k == ks or o['obj'] != so['obj'] or o['thread'] != so['thread'] or o['kind'] == 'suspend': continue
+                r = rr['ops'][k]
+                if o['idx'] < so['idx'] and rs['fret'] >= 0 and (r['end'] < 0 or rs['fret'] < r['end']): bad.append('suspend resolved before op%d finished' % k)
+                if o['idx'] > so['idx'] and rs['fret'] >= 0 and r['start'] >= 0 and r['start'] >= rs['fret'] and (rs['resumed'] < 0 or r['start'] < rs['resumed']): bad.append('op%d ran while suspended' % k)
+                if o['idx'] > so['idx'] and rs['fret'] >= 0 and r['start'] >= 0 and r['start'] < rs['fret']: bad.append('op%d overtook the suspend' % k)
+        return ('reproduced', '; '.join(bad)) if bad else ('not_reproduced', '')
     if oracle == 'pool_max':
         pools = [n for n in rr['threads'] if re.match(r'P\d+$', n)]
         return ('reproduced', 'pool threads %s > max %d' % (pools, sc.get('pool_max', 0))) if len(pools) > sc.get('pool_max', 0) else ('not_reproduced', '')
@@ -184,9 +288,10 @@ def opinfo(sc):
     ops = {}; k = 0
     for th in sc['threads']:
         for op in th['ops']:
-            if op[0] in ('sync', 'desync', 'try_sync'):
+            if op[0] in ('sync', 'desync', 'try_sync', 'future_desync', 'future_sync', 'suspend'):
                 b = op[2] if len(op) > 2 else {}
-                ops[k] = {'kind': op[0], 'obj': op[1], 'thread': th['name'], 'probe': b.get('probe'), 'gated': any(isinstance(x, (list, tuple)) and x[0] == 'gate' for x in b.get('acts', []))}
+                ops[k] = {'kind': op[0], 'obj': op[1], 'thread': th['name'], 'probe': b.get('probe'), 'idx': th['ops'].index(op),
+                          'gated': any(isinstance(x, (list, tuple)) and x[0] == 'gate' for x in b.get('acts', [])) or isinstance(b.get('fut'), (list, tuple)) or op[0] == 'suspend'}
                 k += 1
     return ops
 
